@@ -17,6 +17,8 @@ ShapesQuick == {
   S("APP13", "ff", 33, "-", 0),
   S("COM", "nested", 300, "-", 0),
   S("DRI", "opaque", 2, "-", 0),
+  S("DRI", "ff", 2, "-", 0),                \* restart interval containing 0xFF bytes
+  S("APP1", "exif", 6006, "LE", 8),         \* payload larger than the scanner's 4 KiB buffer
   S("SOF0", "opaque", 15, "-", 0) }
 
 ShapesThorough == ShapesQuick \cup {
